@@ -303,7 +303,7 @@ def _mask_hang_sleeps(reqs, impl, model, reset_word):
 
 
 def run(ck):
-    ck.prepare_lean()
+    ck.prepare_lean(extra_targets=['MidoProofs.Props.C11b'])
     ck.run_corpus(oracle)
     cases, multis = gen(ck)
     res = [r for part in pool_map(_chunk, list(chunks(cases, 500))) for r in part]
